@@ -91,6 +91,22 @@ def o2(tier):
     return r_
 
 
+def o3(tier):
+    """what survives a restart is what was committed: no storage method may return with a transaction/savepoint still open
+    (every later write of that connection would sit in an uncommitted transaction and vanish at restart). Shared with C12-O1."""
+    from props import C12
+    from sqlsym import engine as S
+    try:
+        r = C12.o1(tier)
+    except S.SqlError as e:
+        from vlib.common import Result
+        r = Result('O3', 'sqlsym', 'transaction brackets'); r.broken(f'SQL engine: {e}'); return r
+    r.oid = 'O3'
+    r.title = ('SQLite (shared with C12-O1): every BEGIN / SAVEPOINT opened by snapshot creation, rollback and relay replacement is closed on every path, '
+               'error paths included (ROLLBACK, or ROLLBACK TO + RELEASE), so no later write is left in an uncommitted transaction that a restart would drop; durable journal settings')
+    return r
+
+
 def run(tier, seed, only=None):
-    obs = [('O1', o1), ('O2', o2)]
+    obs = [('O1', o1), ('O2', o2), ('O3', o3)]
     return [f(tier) for k, f in obs if not only or k in only]
